@@ -3,7 +3,10 @@ Proof: coq/theories/Properties/C14.v (models Cursor/*.v).
 Correspondence: the real cursors of boltz/ and ast/ (every kind the library hands out, over every
 subset of a 5-element universe incl. the empty string, every interleaving of Next/Seek up to a
 depth) against the extracted models AND against the specification (abstract position machine);
-the abstract bbolt cursor of Cursor/BoltCursor.v against real bbolt on random op sequences."""
+the abstract bbolt cursor of Cursor/BoltCursor.v against real bbolt on random op sequences.
+Re-opened cursors (Cursor/Reuse.v, harness c14_reuse.go): ONE runtime set symbol used for consecutive rows (R
+lines: any state left by the previous row x row with elements / empty bucket / no bucket / no entity) and whole
+scans (S lines: QueryIds / IterateIds with isEmpty, anyOf, allOf, count filters through the cached symbol)."""
 import json
 import os
 import subprocess
@@ -36,6 +39,17 @@ class Toks:
     def ops(self):
         n = int(self.next())
         return [self.next() for _ in range(n)]
+
+    def row(self):
+        ident = unhex(self.next())
+        present = int(self.next())
+        elems = self.set()
+        return ident, present, (elems if present == 1 else [])
+
+    def rest(self):
+        r = self.t[self.i:]
+        self.i = len(self.t)
+        return r
 
 
 def parse_case(line):
@@ -77,12 +91,99 @@ def parse_case(line):
         else:
             elems = [i for i, r in ents if any(v in r for v in vals)]
         return dict(kind=which, fw=fw, elems=sorted(elems), ops=ops, size=nent + len(vals), inputs=[i for i, _ in ents])
+    if head == "R":
+        kind = tk.next()
+        segs = []
+        for _ in range(int(tk.next())):
+            ident, present, elems = tk.row()
+            segs.append(dict(id=ident, present=present, elems=elems, ops=tk.ops()))
+        return dict(head="R", kind=kind, fw=True, segs=segs, ops=[o for sg in segs for o in sg["ops"]],
+                    size=sum(len(sg["elems"]) for sg in segs), inputs=[x for sg in segs for x in sg["elems"]])
+    if head == "S":
+        field = tk.next()
+        variant = tk.next()
+        rows = [tk.row() for _ in range(int(tk.next()))]
+        return dict(head="S", kind="scan-" + field, field=field, variant=variant, fw=True, rows=rows, filter=tk.rest(), ops=[],
+                    size=sum(len(r[2]) for r in rows), inputs=[x for r in rows for x in r[2]])
     return None
+
+
+def filter_holds(toks, pos, l):
+    """a set filter (prefix form) on the element list l of one row; -> (bool, next position)"""
+    t = toks[pos]
+    pos += 1
+    if t in ("E", "Z"):
+        return not l, pos
+    if t[0] == "=":
+        return unhex(t[1:]) in l, pos
+    if t[0] == "#":
+        return any(x != unhex(t[1:]) for x in l), pos
+    if t[0] == "A":
+        return all(x == unhex(t[1:]) for x in l), pos
+    if t[0] == "C":
+        return len(l) == int(t[1:]), pos
+    if t == "!":
+        a, pos = filter_holds(toks, pos, l)
+        return not a, pos
+    a, pos = filter_holds(toks, pos, l)
+    b, pos = filter_holds(toks, pos, l)
+    return (a and b) if t == "&" else (a or b), pos
+
+
+def filter_text(field, toks):
+    def go(pos):
+        t = toks[pos]
+        pos += 1
+        q = lambda h: '"%s"' % unhex(h).decode("latin-1")
+        if t == "E":
+            return "isEmpty(%s)" % field, pos
+        if t == "Z":
+            return "isEmpty(from %s where true)" % field, pos
+        if t[0] in "=#A":
+            return "%s(%s) %s %s" % ("allOf" if t[0] == "A" else "anyOf", field, "!=" if t[0] == "#" else "=", q(t[1:])), pos
+        if t[0] == "C":
+            return "count(%s) = %s" % (field, t[1:]), pos
+        if t == "!":
+            a, pos = go(pos)
+            return "not (%s)" % a, pos
+        a, pos = go(pos)
+        b, pos = go(pos)
+        return "(%s) %s (%s)" % (a, "and" if t == "&" else "or", b), pos
+    return go(0)[0]
+
+
+def oracle_trace(en, fw, ops):
+    pos = 0 if en else None
+
+    def ob(p):
+        return "I" if p is None else "V" + (en[p].hex() or "-")
+    out = [ob(pos)]
+    for o in ops:
+        if o == "N":
+            pos = pos + 1 if pos is not None and pos + 1 < len(en) else None
+        else:
+            v = unhex(o[1:])
+            pos = None
+            for i, x in enumerate(en):
+                if (x >= v) if fw else (x <= v):
+                    pos = i
+                    break
+        out.append(ob(pos))
+    return out
 
 
 def oracle(pc):
     """the property's own oracle: the abstract position machine over the sorted set, written
     independently of the Coq development (cross-checks the extracted specification)."""
+    if pc.get("head") == "R":
+        # every use of the re-opened symbol is a fresh cursor over that row's set
+        out = []
+        for k, sg in enumerate(pc["segs"]):
+            out += (["/"] if k else []) + oracle_trace(sg["elems"], True, sg["ops"])
+        return out
+    if pc.get("head") == "S":
+        ids = [r[0] for r in pc["rows"] if filter_holds(pc["filter"], 0, r[2])[0]]
+        return [str(len(ids))] + [i.hex() or "-" for i in sorted(ids)]
     en = pc["elems"] if pc["fw"] else list(reversed(pc["elems"]))
     fw = pc["fw"]
     pos = 0 if en else None
@@ -110,6 +211,18 @@ def classify(pc, impl_t, spec_t):
     ti = impl_t[j] if j < len(impl_t) else "?"
     ts = spec_t[j] if j < len(spec_t) else "?"
     kind = pc["kind"]
+    if pc.get("head") == "S":
+        fam = "composite" if "." in pc["field"] else "setsym"
+        what = {"H": "hang", "P": "panic", "E": "error"}.get(impl_t[0] if impl_t else "?", "rows")
+        return "C14:scan-%s-%s" % (fam, what), j
+    if pc.get("head") == "R":
+        seg = impl_t[:j].count("/") if j <= len(impl_t) else 0
+        if seg >= 1:
+            if ti == "P":
+                return "C14:%s-reopen-panic" % kind, j
+            if ti.startswith("V") and ts in ("I", "/", "?"):
+                return "C14:%s-reopen-stale" % kind, j
+            return "C14:%s-reopen" % kind, j
     if ti == "P":
         if kind in TREE_KINDS:
             return ("C14:tree-empty-panic" if j == 0 else "C14:tree-next-exhausted-panic"), j
@@ -137,11 +250,12 @@ def main(argv):
     c = vlib.Check(PID, argv)
     c.cov["trusted_base"] = [
         "Coq 8.16.1 kernel (coqc; coqchk in the thorough tier); vm_compute in Examples only; no axioms",
-        "hand-written models Cursor/{BoltCursor,Typed,Filtered,Union,Tree,SetSym,Cases}.v of boltz/query_bolt_cursors.go, ast/cursors.go and the hand-out sites",
+        "hand-written models Cursor/{BoltCursor,Typed,Filtered,Union,Tree,SetSym,Cases,Reuse}.v of boltz/query_bolt_cursors.go, ast/cursors.go and the hand-out sites",
         "Cursor/BoltCursor.v as a description of bbolt 1.4.0 cursors (compared with real bbolt on every run: case kind B)",
         "llrb.Tree as an ordered set (replace on equal, in-order Left/Right links); its balancing is not modelled",
         "extraction (ExtrOcamlBasic only) + extraction/c14_driver.ml + drv_common.ml",
-        "Go harness cmd/storageharness/c14.go (stores, generators) and this comparison / oracle",
+        "Go harness cmd/storageharness/c14.go, c14_reuse.go (stores, generators) and this comparison / oracle",
+        "composite set symbols (stackedCursor): no C14 model, implementation compared with the specification (concatenation computed by the harness) only",
     ]
     c.assumptions = [
         "buckets are not modified while a cursor is open (bbolt's own precondition)",
@@ -166,6 +280,11 @@ def main(argv):
     else:
         args = [harness, "c14", "--seed", str(c.seed), "--tier", c.tier, "--out", c.work]
     rc, out = vlib.run(args, timeout=2400)
+    if rc == 7 and os.path.exists(os.path.join(c.work, "HANG.txt")):
+        hang = open(os.path.join(c.work, "HANG.txt")).read().strip()
+        c.violation("C14:hang", "a cursor operation or query did not return within the watchdog limit; last case started: %s" % hang[:400],
+                    dict(case=hang, note="the harness watchdog stopped the run (status 7); replay with --replay on this case line"))
+        return c.finish()
     if rc != 0:
         c.violation("C14:harness-run", "harness failed rc=%s: %s" % (rc, out[-500:]),
                     dict(correspondence="harness run", log=out[-3000:]), no_input=True)
@@ -203,7 +322,7 @@ def main(argv):
             mo, _, sp = modl.partition(" | ")
             impl_t, mo_t, sp_t = impl.split(), mo.split(), sp.split()
             pc = None
-            if impl_t != sp_t or mo_t != sp_t or n_cases % oracle_every == 0:
+            if impl_t != sp_t or (mo_t != sp_t and mo != "-") or n_cases % oracle_every == 0:
                 pc = parse_case(case)
                 per_kind[pc["kind"]] = per_kind.get(pc["kind"], 0)
                 if oracle(pc) != sp_t:
@@ -211,9 +330,9 @@ def main(argv):
             if impl_t != sp_t:
                 key, j = classify(pc, impl_t, sp_t)
                 prop_viol.append(((pc["size"], len(pc["ops"]), j, len(case)), key, case, impl, mo, sp, j))
-            elif mo_t != sp_t:
+            elif mo_t != sp_t and mo != "-":
                 corr.append((case, impl, mo, sp))
-            if "V" in sp:
+            if "V" in sp or (case[0] == "S" and not sp.startswith("0")):
                 nontrivial.add(hash(case))
     if c.replay:
         for s in samples:
@@ -232,10 +351,30 @@ def main(argv):
         except Exception:  # noqa
             pass
         pc = parse_case(case)
-        what = ("%s cursor (%s) over %s, ops %s: observation #%d is %s, the property demands %s" % (
-            pc["kind"], "forward" if pc["fw"] else "reverse", [x.decode("latin-1") for x in pc["inputs"]],
-            " ".join(pc["ops"]) or "(none)", j, impl.split()[j] if j < len(impl.split()) else "?",
-            sp.split()[j] if j < len(sp.split()) else "?"))
+        dec = lambda xs: [x.decode("latin-1") for x in xs]
+        if pc.get("head") == "R":
+            seg = impl.split()[:j].count("/")
+            rows = "; then ".join("row %s (%s) ops %s" % (
+                sg["id"].decode("latin-1"),
+                {0: "no such entity", 2: "no bucket for the set"}.get(sg["present"], "set %s" % dec(sg["elems"])),
+                " ".join(sg["ops"]) or "(none)") for sg in pc["segs"])
+            what = ("ONE runtime set symbol (%s) re-opened row after row: %s. In use #%d (row %s) observation %s where a cursor over that row's set "
+                    "shows %s: OpenCursor does not reset what the previous row left. Whole trace %s, demanded %s" % (
+                        pc["kind"], rows, seg + 1, pc["segs"][min(seg, len(pc["segs"]) - 1)]["id"].decode("latin-1"),
+                        impl.split()[j] if j < len(impl.split()) else "?", sp.split()[j] if j < len(sp.split()) else "?", impl, sp))
+        elif pc.get("head") == "S":
+            rows = ", ".join("%s:%s" % (r[0].decode("latin-1"), {0: "absent", 2: "no bucket"}.get(r[1], dec(r[2]))) for r in pc["rows"])
+            got = {"H": "did not return within 10 s (the set cursor of a row never exhausts)", "P": "panicked", "E": "failed"}.get(
+                impl.split()[0] if impl.split() else "?", "returned ids %s" % dec([unhex(x) for x in impl.split()[1:]]))
+            what = ("scan %s with filter `%s` over the entities {%s} (set field %s, one cached symbol re-opened for every row): %s; "
+                    "the rows whose set satisfies the filter are %s" % (
+                        "QueryIds" if pc["variant"] == "q" else "IterateIds", filter_text(pc["field"], pc["filter"]), rows, pc["field"],
+                        got, dec([unhex(x) for x in sp.split()[1:]])))
+        else:
+            what = ("%s cursor (%s) over %s, ops %s: observation #%d is %s, the property demands %s" % (
+                pc["kind"], "forward" if pc["fw"] else "reverse", dec(pc["inputs"]),
+                " ".join(pc["ops"]) or "(none)", j, impl.split()[j] if j < len(impl.split()) else "?",
+                sp.split()[j] if j < len(sp.split()) else "?"))
         c.violation(key, what, dict(case=case, impl=impl, model=mo, spec=sp, legacy_model=legacy,
                                     classes={k: v for k, v in seen.items()}))
     if prop_viol:
@@ -251,6 +390,11 @@ def main(argv):
                      "x every cursor kind / hand-out site x direction x every sequence of exactly d operations over {Next, Seek t} "
                      "(t in 9 targets: present, absent, before first, after last, prefix), d = 3 (4 thorough; 5 over 6 targets) for the base adapters and the "
                      "set-symbol cursor, 2 (3) for the hand-out sites; Next-only cursors (filtered, union, tree) over all pairs of subsets / all insertion orders; "
+                     "RE-OPENED cursors: one runtime set symbol (GetSymbol / GetRuntimeSymbol of a string-list and of a link-set field) opened on a first row "
+                     "(5 (12) subsets) and driven by every op sequence of length <= 2 (3), then opened on every other row (32 subsets, empty bucket, no bucket, "
+                     "no entity) with Next Next / Seek Next, then on a third row; the composite symbols grps.items, grps.items.tags over all row triples; "
+                     "scans (QueryIds, IterateIds) of all worlds of 3 (4) entities x {no bucket, empty, {a}, {b}, {a,b}} x 14-17 filters built from "
+                     "isEmpty / anyOf = / anyOf != / allOf = / count / isEmpty(from .. where true) with not/and/or, every query under a 10 s limit; "
                      "AllOf/AnyOf iterators over seeded random role assignments x all value lists of length <= 3; B: seeded random First/Last/Next/Prev/Seek "
                      "sequences on real bbolt buckets (all 32 subsets, one multi-page bucket, read-only and writable transactions). "
                      "Observed after the constructor and after every op: IsValid / Current. Non-trivial: the specification trace contains at least one valid "
